@@ -49,8 +49,11 @@ pub fn run(rec: &mut Recorder, w: &mut World, tier: &str, seed: u64) {
         let mut shadow: Vec<Vec<String>> = gen_lines(&mut rng, &cur);
         let mold = model_of(&cur, E_ALLOW, false, "", false);
         if new_enforcer(rec, w, &mold, "memory", &shadow, "", false) != "ok" { continue; }
-        let mut addfn = false;
+        let mut addfn: Option<&str> = None;
         let mut descr = vec![format!("start {}", cur.name)];
+        // the caller keeps a handle to the original role manager and may hand it back later
+        let keep = rng.chance(1, 2);
+        if keep { rec.exec(w, "e.keeprm"); descr.push("keep the role-manager handle".into()); }
         let n_reconf = 1 + rng.below(3);
         let mut did_setmodel = false;
         for ci in 0..n_reconf {
@@ -73,14 +76,23 @@ pub fn run(rec: &mut Recorder, w: &mut World, tier: &str, seed: u64) {
                 rec.count("op:management");
             }
             // one reconfiguration call; the first is always set_model(new) so that every ordered pair is exercised
-            let which = if ci == 0 { 0 } else { rng.below(6) };
+            let which = if ci == 0 { 0 } else { rng.below(8) };
             match which {
                 0 => { let target = if did_setmodel { rng.pick(&fam).clone() } else { newk.clone() }; did_setmodel = true;
                        model_of(&target, E_ALLOW, false, "", false).emit(rec, w); let o = rec.exec(w, "e.setmodel"); descr.push(format!("set_model({}) -> {}", target.name, o)); cur = target; rec.count("op:set_model"); }
                 1 => { let l = gen_lines(&mut rng, &cur); let o = rec.exec(w, &format!("e.setadapter\tmemory\t{}\t", enc_lists(&l))); shadow = l; descr.push(format!("set_adapter -> {}", o)); rec.count("op:set_adapter"); }
-                2 => { let o = rec.exec(w, "e.setrm"); descr.push(format!("set_role_manager -> {}", o)); rec.count("op:set_role_manager"); }
+                2 => { let o = rec.exec(w, "e.setrm"); descr.push(format!("set_role_manager(fresh) -> {}", o)); rec.count("op:set_role_manager");
+                       // a link removed while the kept manager is detached: the kept one still holds it
+                       if keep && !cur.g.is_empty() && rng.chance(2, 3) {
+                           let pol = rec.exec(w, "e.pol"); let parts: Vec<&str> = pol.split(' ').collect();
+                           let gl = dec_lists(parts[1]);
+                           if !gl.is_empty() { let l = rng.pick(&gl).clone(); let out = rec.exec(w, &MOp::Rm("g".into(), l[1].clone(), l[2..].to_vec()).line());
+                               if out == "true" { shadow.retain(|x| *x != l); } descr.push(format!("remove {:?} -> {}", l, out)); }
+                       } }
+                6 => { if keep { let o = rec.exec(w, "e.setrm\tkept"); descr.push(format!("set_role_manager(kept handle) -> {}", o)); rec.count("op:set_role_manager-kept"); } }
+                7 => { let imp = *rng.pick(&["ne", "true", "eq"]); rec.exec(w, &format!("e.addfn\teqFn\t{}", imp)); addfn = Some(imp); descr.push(format!("add_function(eqFn := {})", imp)); rec.count("op:add_function-replace"); }
                 3 => { rec.exec(w, "e.seteft"); descr.push("set_effector".into()); rec.count("op:set_effector"); }
-                4 => { rec.exec(w, "e.addfn\teqFn"); addfn = true; descr.push("add_function(eqFn)".into()); rec.count("op:add_function"); }
+                4 => { rec.exec(w, "e.addfn\teqFn\teq"); addfn = Some("eq"); descr.push("add_function(eqFn := eq)".into()); rec.count("op:add_function"); }
                 _ => { let o = rec.exec(w, "e.load"); descr.push(format!("load_policy -> {}", o)); rec.count("op:load_policy"); }
             }
         }
@@ -88,7 +100,7 @@ pub fn run(rec: &mut Recorder, w: &mut World, tier: &str, seed: u64) {
         // the fresh enforcer: same model, a MemoryAdapter holding the same lines, the same components
         let mcur = model_of(&cur, E_ALLOW, false, "", false);
         let r0 = new_enforcer(rec, w, &mcur, "memory", &shadow, "", false);
-        if addfn && r0 == "ok" { rec.exec(w, "e.addfn\teqFn"); }
+        if let (Some(imp), true) = (addfn, r0 == "ok") { rec.exec(w, &format!("e.addfn\teqFn\t{}", imp)); }
         let bfresh = if r0 == "ok" { observe(rec, w, &cur) } else { format!("construction failed: {}", r0) };
         if r0 == "ok" && a != bfresh {
             rec.fail("reconfigured-differs-from-fresh", format!("[{} -> {}] {}: reconfigured {} but fresh {}", old.name, newk.name, descr.join(" ; "), a, bfresh));
@@ -98,4 +110,51 @@ pub fn run(rec: &mut Recorder, w: &mut World, tier: &str, seed: u64) {
         if oi == 0 && ni == 1 && rep == 0 { rec.sample(descr.join(" ; ")); }
     } } }
     rec.count_n("ordered-model-pairs", (fam.len() * fam.len()) as u64);
+
+    // ---- directed histories: components handed back or registered again ----
+    let compare = |rec: &mut Recorder, w: &mut World, k: &Kind, shadow: &[Vec<String>], addfn: Option<&str>, descr: &[String], what: &str| {
+        let a = observe(rec, w, k);
+        let m = model_of(k, E_ALLOW, false, "", false);
+        let r0 = new_enforcer(rec, w, &m, "memory", shadow, "", false);
+        if let (Some(imp), true) = (addfn, r0 == "ok") { rec.exec(w, &format!("e.addfn\teqFn\t{}", imp)); }
+        if r0 == "ok" { let bfresh = observe(rec, w, k); if a != bfresh { rec.fail("reconfigured-differs-from-fresh", format!("[{}] {}: reconfigured {} but fresh {}", what, descr.join(" ; "), a, bfresh)); } }
+        rec.count(&format!("directed:{}", what));
+    };
+    let n_dir = (if tier == "thorough" { 60 } else { 12 }) * rec.budget as usize;
+    // (1) a kept role-manager handle that went stale while detached is handed back
+    for k in fam.iter().filter(|k| !k.g.is_empty()) { for _ in 0..n_dir {
+        rec.begin();
+        let mut shadow = gen_lines(&mut rng, k);
+        let m = model_of(k, E_ALLOW, false, "", false);
+        if new_enforcer(rec, w, &m, "memory", &shadow, "", false) != "ok" { continue; }
+        let mut descr = vec![format!("start {} with {:?}", k.name, shadow)];
+        rec.exec(w, "e.keeprm");
+        descr.push(format!("keep handle; set_role_manager(fresh) -> {}", rec.exec(w, "e.setrm")));
+        for _ in 0..1 + rng.below(3) {
+            let gi = rng.below(k.g.len());
+            let glines: Vec<Vec<String>> = shadow.iter().filter(|l| l[0] == "g" && l[1] == k.g[gi].0).cloned().collect();
+            let (op, l) = if !glines.is_empty() && rng.chance(2, 3) { let l = rng.pick(&glines).clone(); (MOp::Rm("g".into(), l[1].clone(), l[2..].to_vec()), l) }
+                          else { let r = rng.pick(&k.links[gi]).clone(); let mut l = vec!["g".to_string(), k.g[gi].0.clone()]; l.extend(r.clone()); (MOp::Add("g".into(), k.g[gi].0.clone(), r), l) };
+            let out = rec.exec(w, &op.line());
+            if out == "true" { if matches!(op, MOp::Rm(..)) { shadow.retain(|x| *x != l); } else if !shadow.contains(&l) { shadow.push(l.clone()); } }
+            descr.push(format!("{} -> {}", op.line().replace('\t', " "), out));
+        }
+        descr.push(format!("set_role_manager(kept handle) -> {}", rec.exec(w, "e.setrm\tkept")));
+        compare(rec, w, k, &shadow, None, &descr, "kept-role-manager-handed-back");
+        rec.nontrivial_case(&descr.join("|"));
+    } }
+    // (2) a function registered again under the same name
+    let kf = fam.iter().find(|k| k.name == "acl-user-function").unwrap().clone();
+    for a in ["eq", "ne", "true"] { for bimp in ["eq", "ne", "true"] { for _ in 0..(n_dir / 6).max(1) {
+        rec.begin();
+        let shadow = gen_lines(&mut rng, &kf);
+        let m = model_of(&kf, E_ALLOW, false, "", false);
+        if new_enforcer(rec, w, &m, "memory", &shadow, "", false) != "ok" { continue; }
+        let mut descr = vec![format!("start {} with {:?}", kf.name, shadow)];
+        rec.exec(w, &format!("e.addfn\teqFn\t{}", a)); descr.push(format!("add_function(eqFn := {})", a));
+        let _ = observe(rec, w, &kf);
+        rec.exec(w, &format!("e.addfn\teqFn\t{}", bimp)); descr.push(format!("add_function(eqFn := {})", bimp));
+        compare(rec, w, &kf, &shadow, Some(bimp), &descr, "function-registered-again");
+        rec.nontrivial_case(&descr.join("|"));
+    } } }
 }
